@@ -73,6 +73,11 @@ CLAIMED = {
    text="Structural necessary conditions decided at every site: compiled bytecode is stored and fetched under a key derived from both the route's method and path; each dispatcher invokes a handler only on Router.Match's success edge, runs the matched route, binds its path parameters and answers 404 (running nothing) otherwise; every server.Route built from a declaration carries that declaration's path and converted method, and the conversion has a distinct arm per method; the route table is written only by RegisterRoute (append, never sorted), Match returns only matchRoute hits, scans all candidates and replaces its best only on a strict fewer-parameters comparison; the interpreter receives the decoded URL path.",
    note="Does not cover Match's specificity order as a function over all tables/requests, nor net/url and ServeMux behaviour. Trusted: go/types, go/ssa.",
    ref="DESIGN.md §3 C05"),
+ "C07": dict(
+   technique="static analysis: guard-edge cut path queries (validate-before-run in both engines, result check), boundary-stage table comparison between the two engines, parse-error propagation and fail-closed-limit rules, route-literal fidelity, who-may-write rule on the compiled request path",
+   text="Structural necessary conditions decided at every site: with the no-contract edges and the validator's success edge cut, neither engine can reach the route body; validation failures are 4xx and stop; the validated value is the one bound as input; every ordinary interpreter result passes CheckType or is a marker response and a mismatch is 5xx; both engines reach the same boundary stages; a required field's value is nil-tested; each typed query conversion has its arm and returns the parse error on the failure edge; validator limits fail closed; the compiled path keeps no cached checker state; every Route literal keeps InputType/ReturnType/QueryParams.",
+   note="Does not cover CheckType/TypesCompatible decisions over all types x documents. Known findings: the compiled (default) engine applies neither declared defaults nor the return-type check. Trusted: go/types, go/ssa.",
+   ref="DESIGN.md §3 C07"),
 }
 
 NA_REASONS = {}
